@@ -228,14 +228,187 @@ def genEntry2 (bnd : Bnd) (thorough : Bool) (e : Entry2) (budget : Nat) (s : UIn
     | some l => (acc.1.push l, s)
     | none => (acc.1, s)) (out, s)
 
+/-! ### stage 3: functions with struct arguments (`cfun3 f=<name> a0=<v> a1=<v> … d=<0|1>`)
+
+A struct argument is the comma-separated list of its leaf values (`Entry3.layout`).  Array and integer arguments are drawn
+as in stage 2.  Struct states: in two thirds of the tuples a state that satisfies the invariants the link theorems assume
+(REACHABLE: the pointer field at the start of its array, `size` / `capacity` the length of that array, the cursor not
+beyond it, a bit count in 0..64 with the accumulator below `2^bits`, a nesting level in 0..32, the error latch mostly
+clear), otherwise one or several leaves are pushed out of it (UNREACHABLE: cursor beyond the end, negative bit count,
+accumulator with stale high bits, a pointer into the middle of the array, status already set, random patterns); the
+generated `_defined` decides whether such a call is executed at all. -/
+
+open Carquet.Gen.CFun (Entry3 table3)
+
+/-- the control values of one struct state -/
+structure Ctl where
+  off : Nat
+  size : Nat
+  pos : Nat
+  bits : Nat
+  buf : Nat
+  lvl : Nat
+
+def lastComp (nm : String) : String := ((nm.splitOn ".").getLast?).getD nm
+
+/-- `good`: a state inside the invariants; otherwise each control value is independently likely to leave them -/
+def drawCtl (L : Nat) (good : Bool) (s : UInt64) : Ctl × UInt64 :=
+  let (k1, s) := below s 100
+  let (r1, s) := below s 4
+  let off := if good || k1 < 70 then 0 else r1
+  let (k2, s) := below s 100
+  let (r2, s) := next s
+  let size := if good || k2 < 60 then L - off
+              else if k2 < 70 then L - off - 1 else if k2 < 80 then L - off + 1 else if k2 < 88 then 0
+              else if k2 < 94 then r2.toNat % 40 else r2.toNat
+  let (k3, s) := below s 100
+  let (r3, s) := below s (size % 100000 + 1)
+  let (r3b, s) := next s
+  let pos := if good then (if k3 < 25 then size else if k3 < 35 then 0 else r3)
+             else if k3 < 45 then r3 else if k3 < 60 then size else if k3 < 80 then size + 1
+             else if k3 < 90 then size + 1 + r3b.toNat % 9 else r3b.toNat
+  let (k4, s) := below s 100
+  let (r4, s) := below s 65
+  let (r4b, s) := next s
+  let bits := if good then (if k4 < 10 then 0 else if k4 < 18 then 64 else if k4 < 26 then 56 else if k4 < 34 then 32 else r4)
+              else if k4 < 50 then r4 else if k4 < 60 then 2 ^ 32 - 1 else if k4 < 70 then 65 else if k4 < 78 then 2 ^ 32 - 8
+              else if k4 < 86 then 72 else r4b.toNat % 2 ^ 32
+  let (k5, s) := below s 100
+  let (r5, s) := next s
+  let buf := if good || k5 < 40 then (if bits ≥ 64 then r5.toNat else r5.toNat % 2 ^ bits) else r5.toNat
+  let (k6, s) := below s 100
+  let (r6, s) := below s 33
+  let lvl := if good then (if k6 < 20 then 0 else if k6 < 30 then 32 else if k6 < 40 then 31 else if k6 < 60 then 1 else r6)
+             else if k6 < 50 then r6 else if k6 < 65 then 33 else if k6 < 80 then 2 ^ 32 - 1 else 40
+  (⟨off, size, pos, bits, buf, lvl⟩, s)
+
+def drawLeaf (bnd : Bnd) (ctl : Ctl) (good : Bool) (nm : String) (k : Kind) (s : UInt64) : Nat × UInt64 :=
+  let l := lastComp nm
+  match k with
+  | .off base =>
+    if base == "" then
+      let (r, s) := next s
+      let (m, s) := below s 3
+      (if m = 0 then 0 else r.toNat, s)
+    else (ctl.off, s)
+  | .arr _ => (0, s)
+  | .int w _ =>
+    if l == "bit_width" || l == "bitpack_pos" || l == "bitpack_count" || l == "run_remaining" then
+      let (m, s) := below s 12
+      let (v, s) := below s (if l == "bit_width" then 34 else if l == "run_remaining" then 20 else 9)
+      let (r, s) := next s
+      (clampW w (if good then (if m = 0 && l == "run_remaining" then 0 else v)
+                 else if m < 6 then v else if m < 8 then 2 ^ 64 - 1 else if m < 10 then v + 30 else r.toNat), s)
+    else if l == "size" || l == "capacity" then (clampW w ctl.size, s)
+    else if l == "pos" || l == "byte_pos" || l.endsWith "_pos" && l != "bit_pos" then (clampW w ctl.pos, s)
+    else if l == "left" || l == "remaining" || l == "avail" then (clampW w (ctl.size - ctl.pos), s)
+    else if l == "buffer_bits" || l == "bits_in_buffer" then (clampW w ctl.bits, s)
+    else if l == "buffer" then (clampW w ctl.buf, s)
+    else if l == "nesting_level" then (clampW w ctl.lvl, s)
+    else if l == "status" then
+      let (m, s) := below s 100
+      let (r, s) := below s 40
+      (clampW w (if good then (if m < 85 then 0 else r) else (if m < 50 then 0 else r)), s)
+    else if l == "bit_pos" then
+      let (r, s) := below s 8
+      (clampW w r, s)
+    else if w = 0 then
+      let (r, s) := below s 2
+      (r, s)
+    else
+      let (m, s) := below s 3
+      if m = 0 then
+        let (v, s) := below s 12
+        (clampW w v, s)
+      else drawArg bnd w #[] s
+
+/-- the leaves of one struct argument; `lenOf` = length of an array argument by name: the control values (offset, size,
+cursor) are drawn afresh at every pointer leaf, for the array that leaf points into -/
+def drawStruct (bnd : Bnd) (lay : List (String × Kind × Nat)) (L0 : Nat) (lenOf : String → Nat) (good : Bool) (s : UInt64) :
+    List Nat × UInt64 :=
+  let (ctl0, s) := drawCtl L0 good s
+  let r := lay.foldl (fun (acc : (List Nat × Ctl) × UInt64) lf =>
+    match lf.2.1 with
+    | .arr w =>
+      let (xs, s) := drawElems w lf.2.2 acc.2
+      ((acc.1.1 ++ xs, acc.1.2), s)
+    | .off base =>
+      let (ctl, s) := if base == "" then (acc.1.2, acc.2) else drawCtl (lenOf base) good acc.2
+      let (v, s) := drawLeaf bnd ctl good lf.1 (.off base) s
+      ((acc.1.1 ++ [v], ctl), s)
+    | k =>
+      let (v, s) := drawLeaf bnd acc.1.2 good lf.1 k acc.2
+      ((acc.1.1 ++ [v], acc.1.2), s)) (([], ctl0), s)
+  (r.1.1, r.2)
+
+def smallBitsName (nm : String) : Bool := ["num_bits", "bit", "bit_width", "n_bits"].contains nm
+
+def drawArgs3 (bnd : Bnd) (thorough : Bool) (e : Entry3) (s : UInt64) : List Val × UInt64 :=
+  -- everything but the structs as in stage 2 (struct arguments are placeholders there)
+  let e2 : Entry2 := { name := e.name, cname := e.cname, file := e.file, args := e.args, outs := e.outs,
+                       fixed := e.fixed, eval := fun _ => none }
+  let (vals, s) := drawArgs2 bnd thorough e2 s
+  let named := (e.args.map (·.1)).zip vals
+  let (g, s) := below s 3
+  let good := g != 0
+  (e.args.zip vals).foldl (fun (acc : List Val × UInt64) av =>
+    match e.layout.find? (·.1 == av.1.1) with
+    | some (_, _, lay) =>
+      let base := (lay.findSome? (fun lf => match lf.2.1 with | .off b => if b == "" then none else some b | _ => none)).getD ""
+      let lenOf := fun (b : String) => match named.find? (·.1 == b) with | some (_, .a xs) => xs.length | _ => 0
+      let (xs, s) := drawStruct bnd lay (lenOf base) lenOf good acc.2
+      (acc.1 ++ [Val.a xs], s)
+    | none =>
+      match av.1.2, av.2 with
+      | .int w _, .n _ =>
+        if smallBitsName av.1.1 then
+          let (m, s) := below acc.2 20
+          let (v, s) := below s 66
+          (acc.1 ++ [Val.n (clampW w (if m = 0 then 2 ^ 32 - 1 else if m = 1 then 100 else if m = 2 then 32 else if m = 3 then 64 else v))], s)
+        else (acc.1 ++ [av.2], acc.2)
+      | _, _ => (acc.1 ++ [av.2], acc.2)) ([], s)
+
+/-- directed tuples for `carquet_bitunpack_32(input, count, bit_width, values)`: a width 0..32, a count 0..40, `values` with
+room for `count` words (sometimes one short), `input` with exactly the packed bytes (sometimes one short / a few more) -/
+def directBitunpack32 (s : UInt64) : List Val × UInt64 :=
+  let (w, s) := below s 34
+  let w := if w = 33 then 8 else w
+  let (count, s) := below s 41
+  let (m1, s) := below s 10
+  let (m2, s) := below s 10
+  let need := (count / 8) * w + ((count % 8) * w + 7) / 8
+  let nIn := if m1 = 0 then need - 1 else if m1 = 1 then need + 3 else need
+  let nVal := if m2 = 0 then count - 1 else if m2 = 1 then count + 2 else count
+  let (inp, s) := drawElems 8 nIn s
+  let (vals, s) := drawElems 32 nVal s
+  let (tmp, s) := drawElems 32 8 s
+  ([Val.a inp, Val.n count, Val.n w, Val.a vals, Val.a tmp], s)
+
+def lineOf3 (e : Entry3) (a : List Val) : Option String :=
+  match e.eval a with
+  | some (_, d) =>
+    let parts := (e.args.zip a).zipIdx.map (fun p => s!"a{p.2}={showVal p.1.1.2 p.1.2}")
+    some s!"cfun3 f={e.name} {" ".intercalate parts} d={if d then 1 else 0}"
+  | none => none
+
+def genEntry3 (bnd : Bnd) (thorough : Bool) (e : Entry3) (n : Nat) (s : UInt64) (out : Array String) : Array String × UInt64 :=
+  (List.range n).foldl (fun (acc : Array String × UInt64) _ =>
+    let (k, s0) := below acc.2 3
+    let (a, s) := if e.name == "carquet_bitunpack_32" && k != 0 then directBitunpack32 s0 else drawArgs3 bnd thorough e s0
+    match lineOf3 e a with
+    | some l => (acc.1.push l, s)
+    | none => (acc.1, s)) (out, s)
+
 def gen (seed : Nat) (thorough : Bool) : List String :=
   let n := if thorough then 6000 else 500
   let bnd := Bnd.mk'
   let s0 : UInt64 := UInt64.ofNat (seed * 2654435761 + 12345)
   let (ls, s1) := table.foldl (fun (acc : Array String × UInt64) e =>
     genEntry bnd e n acc.2 (acc.1.push s!"#fn {e.name} {e.file} {e.cname}")) (#[], s0)
-  let (ls, _) := table2.foldl (fun (acc : Array String × UInt64) e =>
+  let (ls, s2) := table2.foldl (fun (acc : Array String × UInt64) e =>
     genEntry2 bnd thorough e (if thorough then 3000 else 300) acc.2 (acc.1.push s!"#fn {e.name} {e.file} {e.cname}")) (ls, s1)
+  let (ls, _) := table3.foldl (fun (acc : Array String × UInt64) e =>
+    genEntry3 bnd thorough e (if thorough then 3000 else 300) acc.2 (acc.1.push s!"#fn {e.name} {e.file} {e.cname}")) (ls, s2)
   ls.toList
 
 end Driver.Gen.CFun
